@@ -21,7 +21,7 @@ CLAIMED = {
    technique="deterministic simulation: seeded request histories on cycle objects, state invariants + order-independence oracle, ddmin replay"),
  "C19": dict(
    text="seeded search over call histories on shared Stream / StreamCollection objects against a reference model and the stated equations; sampling, not proof",
-   note="trusts the reference model in worlds/c19.py; fault set is empty for this surface (no I/O, clock, concurrency); only the five input attributes are assigned, htc > 0",
+   note="trusts the reference model in worlds/c19.py; fault set is empty for this surface (no I/O, clock, concurrency); only the five input attributes are assigned, htc != 0",
    technique="deterministic simulation: seeded operation histories vs reference model, ddmin replay"),
 }
 NA = {
